@@ -226,6 +226,39 @@ fn compile_once(p: &Program, alloc_order: &[usize], iter_order: Option<&[usize]>
   }
 }
 
+/// The kinds of the diagnostics that differ between two renderings: for each error block that occurs
+/// in only one of them, its first message line with everything between back-quotes blanked. Part of
+/// the violation signature, so that a listed finding covers its own diagnostic kinds only.
+fn differing_kinds(a: &str, b: &str) -> String {
+  let (ma, mb) = (diag_multiset(a), diag_multiset(b));
+  let mut kinds: Vec<String> = vec![];
+  for (x, other) in [(&ma, &mb), (&mb, &ma)] {
+    let mut rest = other.clone();
+    for block in x {
+      if let Some(i) = rest.iter().position(|y| y == block) {
+        rest.remove(i);
+        continue;
+      }
+      let head = block.lines().skip(1).find(|l| !l.trim().is_empty()).unwrap_or("").trim();
+      let mut blank = String::new();
+      let mut inside = false;
+      for c in head.chars() {
+        if c == '`' {
+          inside = !inside;
+          blank.push('`');
+        } else if !inside {
+          blank.push(c);
+        }
+      }
+      if !kinds.contains(&blank) {
+        kinds.push(blank);
+      }
+    }
+  }
+  kinds.sort();
+  kinds.join(" + ")
+}
+
 fn diag_multiset(d: &str) -> Vec<String> {
   // one entry per error block ("Error ---- file:loc" ... up to the next "Error ----")
   let mut out = vec![];
@@ -357,10 +390,10 @@ fn main() {
             if *a == identity {
               // same allocation order: diagnostics must be byte-equal
               if f.r.diagnostics != reference.r.diagnostics {
-                run.violation("diagnostics-text-differs", &format!("rendered diagnostics differ for the same module-reference order [{cfg}]"), json!({"config": cfg, "reference": reference.r.diagnostics, "got": f.r.diagnostics}));
+                run.violation(&format!("diagnostics-text-differs:{}:{}", p.name.chars().take(48).collect::<String>(), differing_kinds(&reference.r.diagnostics, &f.r.diagnostics)), &format!("rendered diagnostics differ for the same module-reference order [{cfg}]"), json!({"config": cfg, "reference": reference.r.diagnostics, "got": f.r.diagnostics}));
               }
             } else if diag_multiset(&f.r.diagnostics) != ref_multiset {
-              run.violation("diagnostics-set-differs", &format!("the set of rendered diagnostics differs [{cfg}]"), json!({"config": cfg, "reference": reference.r.diagnostics, "got": f.r.diagnostics}));
+              run.violation(&format!("diagnostics-set-differs:{}:{}", p.name.chars().take(48).collect::<String>(), differing_kinds(&reference.r.diagnostics, &f.r.diagnostics)), &format!("the set of rendered diagnostics differs [{cfg}]"), json!({"config": cfg, "reference": reference.r.diagnostics, "got": f.r.diagnostics}));
             }
           } else if let Some(e) = f.emitted {
             distinct_binaries.entry((f.r.wasm_hash, f.r.ts_hash)).or_insert(e);
@@ -480,7 +513,7 @@ fn main() {
         Err(e) => run.violation(&format!("panic:{}", e.chars().take(100).collect::<String>()), &e, json!({"program": p.name})),
         Ok(f) => {
           if f.r.accepted != reference.r.accepted || f.r.diagnostics != reference.r.diagnostics {
-            run.violation("seed:verdict-or-diagnostics-differ", &format!("verdict / diagnostics of `{}` differ between two runs with fresh hash seeds", p.name), json!({"program": p.name, "reference": reference.r.diagnostics, "got": f.r.diagnostics}));
+            run.violation(&format!("seed:verdict-or-diagnostics-differ:{}:{}", p.name.chars().take(48).collect::<String>(), differing_kinds(&reference.r.diagnostics, &f.r.diagnostics)), &format!("verdict / diagnostics of `{}` differ between two runs with fresh hash seeds", p.name), json!({"program": p.name, "reference": reference.r.diagnostics, "got": f.r.diagnostics}));
           }
         }
       }
